@@ -235,16 +235,57 @@ func OwnBuild(p *load.Program) *report.RuleResult {
 		}
 	}
 	n := 0
+	// the stores that fill the built table: in Build itself, or in an unexported constructor it
+	// hands the values to (makeLST(imports, offsets, max, symbols, index)); a store of a
+	// constructor parameter is judged by the argument Build passes
+	type fill struct {
+		field string
+		val   ssa.Value
+		at    ssa.Instruction
+	}
+	var fills []fill
 	for _, b := range build.Blocks {
 		for _, in := range b.Instrs {
-			st, ok := in.(*ssa.Store)
+			if st, ok := in.(*ssa.Store); ok {
+				if _, field, ok := ssau.FieldOf(st.Addr); ok && mut[field] {
+					fills = append(fills, fill{field, st.Val, in})
+				}
+			}
+			c, ok := in.(ssa.CallInstruction)
 			if !ok {
 				continue
 			}
-			_, field, ok := ssau.FieldOf(st.Addr)
-			if !ok || !mut[field] {
+			g := load.Unwrap(c.Common().StaticCallee())
+			if g == nil || !p.InModule(g) || len(g.Blocks) == 0 || (g.Object() != nil && g.Object().Exported()) {
 				continue
 			}
+			for _, gb := range g.Blocks {
+				for _, gin := range gb.Instrs {
+					st, ok := gin.(*ssa.Store)
+					if !ok {
+						continue
+					}
+					_, field, ok := ssau.FieldOf(st.Addr)
+					prm, isPrm := st.Val.(*ssa.Parameter)
+					if !ok || !mut[field] || !isPrm {
+						continue
+					}
+					for k, q := range g.Params {
+						if q == prm && k < len(c.Common().Args) {
+							fills = append(fills, fill{field, c.Common().Args[k], in})
+						}
+					}
+				}
+			}
+		}
+	}
+	for _, fl := range fills {
+		{
+			st := struct {
+				Val ssa.Value
+			}{fl.val}
+			in := fl.at
+			field := fl.field
 			switch st.Val.Type().Underlying().(type) {
 			case *types.Slice, *types.Map:
 			default:
@@ -253,11 +294,11 @@ func OwnBuild(p *load.Program) *report.RuleResult {
 			n++
 			what := "field " + field + " of the built table"
 			if t, f, _, isLoad := fieldLoad(st.Val); isLoad {
-				r.Bad(name, instrPos(p, st), what, sprintf("the built table receives the builder's own %s.%s, which Add keeps mutating: the table changes after it was built (and a concurrent reader of it races with the writer)", t, f))
+				r.Bad(name, instrPos(p, in), what, sprintf("the built table receives the builder's own %s.%s, which Add keeps mutating: the table changes after it was built (and a concurrent reader of it races with the writer)", t, f))
 			} else if aliasOfReceiverField(st.Val, 0) {
-				r.Bad(name, instrPos(p, st), what, "the built table may receive an alias of the builder's own storage")
+				r.Bad(name, instrPos(p, in), what, "the built table may receive an alias of the builder's own storage")
 			} else {
-				r.OK(name, instrPos(p, st), what, "fresh copy")
+				r.OK(name, instrPos(p, in), what, "fresh copy")
 			}
 		}
 	}
@@ -724,6 +765,78 @@ func describeVal(v ssa.Value) string {
 }
 
 func indexPairOK(p *load.Program, symV, idxV ssa.Value) string {
+	return indexPairOKd(p, symV, idxV, 0)
+}
+
+func indexPairOKd(p *load.Program, symV, idxV ssa.Value, depth int) string {
+	if depth > 3 {
+		return ""
+	}
+	if symV != nil && ssau.IsNilConst(symV) {
+		symV = nil
+	}
+	// (d) the two results of one helper call: decided at the helper's returns
+	if se, ok := symV.(*ssa.Extract); ok {
+		if ie, ok := idxV.(*ssa.Extract); ok && se.Tuple == ie.Tuple {
+			if c, ok := se.Tuple.(*ssa.Call); ok {
+				if g := load.Unwrap(c.Call.StaticCallee()); g != nil && p.InModule(g) && len(g.Blocks) > 0 {
+					by := ""
+					for _, ret := range returns(g) {
+						if se.Index >= len(ret.Results) || ie.Index >= len(ret.Results) {
+							return ""
+						}
+						by = indexPairOKd(p, ret.Results[se.Index], ret.Results[ie.Index], depth+1)
+						if by == "" {
+							return ""
+						}
+					}
+					if by != "" {
+						return "results of " + p.FuncName(g) + ": " + by
+					}
+				}
+			}
+		}
+	}
+	// (e) both are parameters of an unexported constructor: decided at its call sites
+	if sp, ok := symV.(*ssa.Parameter); ok {
+		if ip, ok := idxV.(*ssa.Parameter); ok && sp.Parent() == ip.Parent() && sp.Parent() != nil {
+			f := sp.Parent()
+			if o := f.Object(); o != nil && !o.Exported() {
+				si, ii := -1, -1
+				for k, q := range f.Params {
+					if q == sp {
+						si = k
+					}
+					if q == ip {
+						ii = k
+					}
+				}
+				n := 0
+				by := ""
+				for _, caller := range p.Funcs {
+					if p.InTest(caller) {
+						continue
+					}
+					for _, b := range caller.Blocks {
+						for _, in := range b.Instrs {
+							c, ok := in.(ssa.CallInstruction)
+							if !ok || load.Unwrap(c.Common().StaticCallee()) != f || si >= len(c.Common().Args) || ii >= len(c.Common().Args) {
+								continue
+							}
+							n++
+							by = indexPairOKd(p, c.Common().Args[si], c.Common().Args[ii], depth+1)
+							if by == "" {
+								return ""
+							}
+						}
+					}
+				}
+				if n > 0 {
+					return sprintf("a consistent pair at each of the %d call sites of %s (e.g. %s)", n, p.FuncName(f), by)
+				}
+			}
+		}
+	}
 	if symV == nil || idxV == nil {
 		if symV == nil && idxV != nil {
 			if mm, ok := idxV.(*ssa.MakeMap); ok && len(*mm.Referrers()) <= 2 {
